@@ -273,6 +273,9 @@ var panicSeen int64
 // teardownMissed counts connections whose session was not closed within the time limit
 var teardownMissed int64
 
+// noEndCount counts connections that did not end within the time limit
+var noEndCount int64
+
 // runConn plays one case and returns the ordered life-cycle events.
 func runConn(cs *caseT) *outcome {
 	l := &connLog{done: make(chan struct{}), nest: cs.Nest}
@@ -394,10 +397,16 @@ func runConn(cs *caseT) *outcome {
 		c.CloseWrite()
 	}
 	o := &outcome{}
+	endWait := 3 * time.Second
+	if atomic.LoadInt64(&noEndCount) > 30 {
+		// the verdict is settled: a tree on which connections never end must not turn the run into hours
+		endWait = 150 * time.Millisecond
+	}
 	select {
 	case <-l.done:
-	case <-time.After(3 * time.Second):
+	case <-time.After(endWait):
 		o.noEnd = true
+		atomic.AddInt64(&noEndCount, 1)
 	}
 	// the server may close the connection before it tears the session down (BYE): wait until the
 	// teardown has finished as well before taking the snapshot of the events
